@@ -42,12 +42,15 @@ Proof. exact extend_atomic. Qed.
 Theorem C19_atomic_clear_partial : forall ph s s' dl e, clear ph s = (s', dl, Err e) -> s' = s.
 Proof. exact clear_atomic. Qed.
 
-Theorem C19_atomic_setitem_int_partial : forall s index v s' dl e,
-  guard (d_store v) (s_doc s) = true ->
-  (forall it, list_get_int (s_items s) index = Ok it ->
-     exists P S Q, s_doc s = P ++ S ++ Q /\ S <> [] /\ NoDup (ids (s_doc s)) /\
-                   fst it = tid (hd dft S) /\ snd it = tid (last S dft)) ->
-  setitem_int s index v = (s', dl, Err e) -> s' = s /\ dl = [v].
+Theorem C19_atomic_setitem_int_partial :
+   forall (s : st) (index : Z) (same : bool) (v : donor) (s' : st) (dl : list donor) (e : exn),
+       guard (d_store v) (s_doc s) = true ->
+       (forall it : item,
+        list_get_int (s_items s) index = Ok it ->
+        exists P S Q : list tok,
+          s_doc s = P ++ S ++ Q /\
+          S <> [] /\ NoDup (ids (s_doc s)) /\ fst it = tid (hd dft S) /\ snd it = tid (last S dft)) ->
+       setitem_int s index same v = (s', dl, Err e) -> s' = s /\ dl = [v].
 Proof. exact setitem_int_atomic. Qed.
 
 (* under the layout invariant, with fresh arguments, a refused call of ANY mutator (insert / append / extend / xs[i] = v / xs[a:b:k] = vs for every step / del for every index form / pop / clear / drop_many) leaves document and items exactly as they were: every refusal happens before the first store write and every later step is proved to succeed *)
@@ -56,7 +59,7 @@ Theorem C19_refused_step :
        seps_ok seps ->
        seps_ok sepsb ->
        forall (s : st) (o : rop) (s' : st) (e : exn),
-       LayS ph s -> op_fresh s o -> run_op ph seps sepsb s o = (s', Err e) -> s' = s.
+       LayS ph s -> op_err_ok s o -> run_op ph seps sepsb s o = (s', Err e) -> s' = s.
 Proof. exact step_err. Qed.
 
 (* at every point of any history over the full op language *)
@@ -68,7 +71,7 @@ Theorem C19_history :
        LayS ph s0 ->
        Hist ph seps sepsb s0 ops s ->
        (op_ok s o -> run_op ph seps sepsb s o = (s', Ok tt) -> LayS ph s' /\ FrameS ph seps sepsb s s') /\
-       (forall e : exn, op_fresh s o -> run_op ph seps sepsb s o = (s', Err e) -> s' = s).
+       (forall e : exn, op_err_ok s o -> run_op ph seps sepsb s o = (s', Err e) -> s' = s).
 Proof. exact history_step. Qed.
 
 (* an attached donor (one that does not span its store) is refused by every mutator, at every
@@ -82,7 +85,9 @@ Theorem C19_reuse_refused_partial :
       exists e, setitem_slice ph seps sepsb s sl vs fr = (s, vs, Err e)) /\
   (forall ph seps sepsb d items index v length sbl fr, detachable v = false ->
       (exists r, prev_last ph items index = Ok r) ->
-      exists fr', insert_tokens ph seps sepsb d items index [v] length sbl fr = (d, [v], fr', Err ValueError)).
+      exists fr', insert_tokens ph seps sepsb d items index [v] length sbl fr = (d, [v], fr', Err ValueError)) /\
+  (forall s index v it, detachable v = false -> list_get_int (s_items s) index = Ok it ->
+      setitem_int s index false v = (s, [v], Err ValueError)).
 Proof.
   repeat split.
   - exact replace_node_refused.
@@ -90,6 +95,7 @@ Proof.
   - exact extend_refused.
   - exact setitem_slice_refused.
   - exact insert_tokens_one_refused.
+  - exact setitem_int_refused.
 Qed.
 
 (* D15: a free-standing parent and its child share the store and the span; detach accepts the child *)
@@ -103,6 +109,11 @@ Proof.
   split; [discriminate|]. split; [reflexivity|]. split; [discriminate|]. split; [reflexivity|].
   eexists. vm_compute. reflexivity.
 Qed.
+
+(* Out of scope (not in the property's list of refusal kinds): a *value* outside the domain of its token type in
+   the middle of a value-level batch (custom.values[0:2] = ['x', Decimal('NaN')]): the conversion of the second
+   value raises after the first element was replaced; C19's list covers nodes that cannot be reused, missing
+   indices / keys, size mismatches, comments, cost combinations, raw texts and arithmetic operands. *)
 
 (* ---- non-vacuity -------------------------------------------------------------------------------- *)
 Definition ex_doc : doc :=
@@ -119,8 +130,29 @@ Example C19_refusals_happen :
   setitem_slice 3 ex_seps ex_seps ex_s (mkslc (Some 0) (Some 2) None) [ex_free; ex_att] 100
     = (ex_s, [ex_free; ex_att], Err ValueError) /\
   insert 3 ex_seps ex_seps ex_s 1 ex_att 100 = (ex_s, [ex_att], Err ValueError) /\
-  setitem_int ex_s 5 ex_free = (ex_s, [ex_free], Err IndexError) /\
+  setitem_int ex_s 5 false ex_free = (ex_s, [ex_free], Err IndexError) /\
+  setitem_int ex_s 1 true ex_att = (ex_s, [ex_att], Ok tt) /\
   fst (optional_set SLeft ex_seps (mkslot ex_doc None) 1 false (Some ex_att) 100) = (mkslot ex_doc None, [ex_att]) /\
   (* duplicates in a batch are refused too *)
   extend 3 ex_seps ex_seps ex_s [ex_free; ex_free] 100 = (ex_s, [ex_free; ex_free], Err ValueError).
 Proof. vm_compute. repeat split; reflexivity. Qed.
+
+(* a history whose calls are refused because the donor is ATTACHED IN THE SAME DOCUMENT (item 0 of the same list,
+   its store is the document itself), offered twice in one batch, or missing: nothing changes, the invariant holds *)
+Definition ex_item0 : donor := mkdonor 5 ex_doc 5 5.
+Example C19_history_with_reuse_refusals :
+  Hist 3 ex_seps ex_seps ex_s
+    [RAppend ex_item0 100; RExtend [ex_free; ex_free] 100; RSetSlice (mkslc (Some 0) (Some 1) None) [ex_free; ex_item0] 100;
+     RInsert 0 ex_item0 100; RSetInt 1 false ex_item0 100; RDropMany [0; 7]; RPop 9] ex_s
+  /\ layout_b 3 ex_doc [(5, 5); (8, 8)] = true.
+Proof.
+  split; [|vm_compute; reflexivity].
+  eapply H_err; [exact I|vm_compute; reflexivity|].
+  eapply H_err; [exact I|vm_compute; reflexivity|].
+  eapply H_err; [intros Hd; vm_compute in Hd; discriminate|vm_compute; reflexivity|].
+  eapply H_err; [exact I|vm_compute; reflexivity|].
+  eapply H_err; [exact I|vm_compute; reflexivity|].
+  eapply H_err; [exact I|vm_compute; reflexivity|].
+  eapply H_err; [exact I|vm_compute; reflexivity|].
+  apply H_nil.
+Qed.
